@@ -282,11 +282,8 @@ func (m *Model) judgeNFTSender(c *Call, v *Verdict) {
 	item := Item{Token: cp(token), Nonce: nonce, Suffix: suffix, Qty: new(big.Int).Set(qty), Meta: e.Meta.Clone()}
 	base := m.gas(c.Shard, "ESDTNFTTransfer")
 	dcopy := m.gas(c.Shard, "DataCopyPerByte")
-	typ := uint32(0)
-	if e.Meta != nil {
-		typ = uint32(vmcommon.NonFungible)
-	}
-	pl := payloadLen(typ, nil, qty, e.Meta, nil)
+	typ, props, reserved := m.storedExtras(c.Shard, c.Caller, suffix, e.Meta != nil)
+	pl := payloadLen(typ, props, qty, e.Meta, reserved)
 	if dstLocal {
 		v.Side = "both"
 		m.flagChecks(v, c, dest, token, suffix, "ESDTNFTTransfer/dest")
@@ -298,7 +295,7 @@ func (m *Model) judgeNFTSender(c *Call, v *Verdict) {
 		// the statement prices only cross-shard payloads; the code also prices the same-shard one (with the merged value)
 		sum := new(big.Int).Add(qty, m.acc(c.Shard, dest).bal(suffix))
 		v.Charge = u64p(base)
-		v.ChargeAlt = []uint64{base + pl*dcopy, base + payloadLen(typ, nil, sum, e.Meta, nil)*dcopy}
+		v.ChargeAlt = []uint64{base + pl*dcopy, base + payloadLen(typ, props, sum, e.Meta, reserved)*dcopy}
 	} else {
 		v.Charge = u64p(base + pl*dcopy)
 	}
@@ -447,10 +444,11 @@ func (m *Model) judgeMultiSender(c *Call, v *Verdict, args [][]byte, n uint64) {
 			}
 		}
 		if e.Meta != nil {
-			plQty += payloadLen(uint32(vmcommon.NonFungible), nil, mi.qty, e.Meta, nil)
+			typ, props, reserved := m.storedExtras(c.Shard, c.Caller, sfx, true)
+			plQty += payloadLen(typ, props, mi.qty, e.Meta, reserved)
 			if dstLocal {
 				sum := new(big.Int).Add(mi.qty, dstBal[sfx])
-				plSum += payloadLen(uint32(vmcommon.NonFungible), nil, sum, e.Meta, nil)
+				plSum += payloadLen(typ, props, sum, e.Meta, reserved)
 				dstBal[sfx] = sum
 			}
 		} else if dstLocal {
